@@ -204,9 +204,27 @@ func runC20(c *runCtx) {
 		}
 		return best, size, "ok"
 	}
+	// the run keeps to a time budget: when the code under test is slow everywhere, the cells measured so far carry the
+	// report (the driver gives the whole run 1500 s / 7200 s)
+	deadline := c.start.Add(time.Duration(c.n(1000, 6000)) * time.Second)
+	failedPerOp := map[string]int{}
 	for _, fam := range fams {
 		for _, op := range ops {
 			cell := op + ":" + fam
+			if time.Now().After(deadline) {
+				res.stat("cells-not-measured-budget-exhausted")
+				continue
+			}
+			failedPerOp[op] = 0
+			for _, f := range res.Failures {
+				if strings.Contains(f.Key, ":"+op+":") {
+					failedPerOp[op]++
+				}
+			}
+			if failedPerOp[op] >= 6 {
+				res.stat("cells-skipped-after-6-failures:" + op)
+				continue
+			}
 			// find a base size with a measurable cost
 			n := 5000
 			var t1 int
